@@ -492,3 +492,25 @@ func lemmaRoundTripWatchUnwatch() (e1, e2, e3, e4 error, pos, n int) {
 //@ func (*Reader).RemainingSize
 //@   requires rwf(r)
 //@   ensures  result >= 0
+
+// ---------------------------------------------------------------------------------------------
+// C13: whole messages. The per-type reader / writer registered for a message is a function value (its round trip is
+// C12): trusted frame here. What is checked: WriteMessage / ReadMessage never panic - in particular not when NO user
+// codec is configured (codec == nil is the default) and the message is not a registered one.
+//@ func SerializeRemotingMessage
+//@   trusted
+//@   requires writer != nil && desc != nil && wwf(writer)
+//@   modifies writer.buf, writer.err, writer.i16buf, writer.i32buf
+//@   ensures wwf(writer) && len(writer.buf) >= old(len(writer.buf))
+//@ func DeserializeRemotingMessage
+//@   trusted
+//@   requires reader != nil && desc != nil
+//@   modifies reader.pos, reader.err
+//@ func (*Writer).WriteMessage
+//@   requires wwf(w) && regwf()
+//@   modifies w.buf, w.err, w.i16buf, w.i32buf
+//@   ensures  wwf(w)
+//@ func (*Reader).ReadMessage
+//@   callspec ReadInto ensures regwf()
+//@   requires rwf(r) && regwf()
+//@   modifies r.pos, r.err
